@@ -218,7 +218,7 @@ def images_replay(ck, counts, stats, rng):
 def files_replay(ck, counts, stats, rng):
     """images as XObjects of real PDF files: the whole way from the bytes of a file to PDFStream.get_data()"""
     import io
-    from ..realise.pdfwriter import Name, Stream, simple_doc
+    from ..realise.pdfwriter import Name, Ref, Stream, simple_doc
     from pdfminer.pdfdocument import PDFDocument
     from pdfminer.pdfpage import PDFPage
     from pdfminer.pdfparser import PDFParser
@@ -228,7 +228,12 @@ def files_replay(ck, counts, stats, rng):
     for d in range(n_docs):
         images = {}
         want = {}
-        for i in range(8):
+        extra = {}
+        # every way the stream dictionary may spell its filter and parameters (ISO 32000-1 7.3.10, table 5): each value
+        # direct or an indirect reference, /Filter a name or an array, /DecodeParms a dictionary or an array
+        f_shapes = ("name", "array", "indirect", "array-indirect")
+        p_shapes = ("dict", "indirect", "array", "array-indirect")
+        for i in range(16):
             w = rng.choice([1, 7, 8, 9, 33, 64, 65, 200, 1728])
             h = rng.randint(1, 4)
             rows = [[0 if rng.random() < rng.choice([0.1, 0.5]) else 1 for _ in range(w)] for _ in range(h)]
@@ -241,12 +246,23 @@ def files_replay(ck, counts, stats, rng):
             if bi:
                 parms["BlackIs1"] = True
             name = "Im%d" % i
+            fs, ps = f_shapes[(i + d) % 4], p_shapes[i // 4]
+            fname = Name(rng.choice(["CCITTFaxDecode", "CCF"]) if fs != "name" else "CCITTFaxDecode")
+            if fs in ("indirect", "array-indirect"):
+                extra[100 + 2 * i] = fname
+                fval = Ref(100 + 2 * i) if fs == "indirect" else [Ref(100 + 2 * i)]
+            else:
+                fval = fname if fs == "name" else [fname]
+            if ps in ("indirect", "array-indirect"):
+                extra[101 + 2 * i] = parms
+                pval = Ref(101 + 2 * i) if ps == "indirect" else [Ref(101 + 2 * i)]
+            else:
+                pval = parms if ps == "dict" else [parms]
             images[name] = Stream({"Type": Name("XObject"), "Subtype": Name("Image"), "Width": w, "Height": h,
                                    "BitsPerComponent": 1, "ColorSpace": Name("DeviceGray"),
-                                   "Filter": Name("CCITTFaxDecode") if i % 2 else [Name("CCITTFaxDecode")],
-                                   "DecodeParms": parms if i % 2 else [parms]}, data)
-            want[name] = (rows, w, bi, strat, align)
-        pdf, _info = simple_doc([b"q 10 0 0 10 0 0 cm /Im0 Do Q"], xobjects=images,
+                                   "Filter": fval, "DecodeParms": pval}, data)
+            want[name] = (rows, w, bi, "%s /Filter %s /DecodeParms %s" % (strat, fs, ps), align, data)
+        pdf, _info = simple_doc([b"q 10 0 0 10 0 0 cm /Im0 Do Q"], xobjects=images, extra_objects=extra,
                                 form=("table", "stream")[d % 2])
         try:
             doc = PDFDocument(PDFParser(io.BytesIO(pdf)))
@@ -254,15 +270,20 @@ def files_replay(ck, counts, stats, rng):
             xo = resolve1(resolve1(page.resources)["XObject"])
         except Exception as e:
             raise MachineryError("generated PDF with Group 4 images could not be opened: %r" % (e,))
-        for name, (rows, w, bi, strat, align) in want.items():
+        for name, (rows, w, bi, strat, align, data) in want.items():
             st = resolve1(xo[name])
             case = {"kind": "image", "w": w, "rows": rows, "align": align, "blackis1": bi, "origin": "file %d %s %s" % (d, name, strat)}
             ck.case(1, ("file", d, name))
+            shapes = strat.split(" ", 1)[1]
+            stats.setdefault("dictionary_shapes_in_files", {})
+            stats["dictionary_shapes_in_files"][shapes] = stats["dictionary_shapes_in_files"].get(shapes, 0) + 1
             try:
                 out = st.get_data()
             except BaseException as e:  # noqa: B902
-                capped(ck, counts, "decode:exception:" + type(e).__name__, "get_data() of a Group 4 image XObject raised %r (%s)"
-                       % (e, case["origin"]), case)
+                capped(ck, counts, "stream-dict:exception:" + type(e).__name__ + ":" + shapes.replace(" ", ""),
+                       "get_data() of a Group 4 image XObject raised %r (%s); ccittfaxdecode() called directly on the same bytes "
+                       "and parameters: %s" % (e, case["origin"], "restores the rows" if g4run.decode(data, w, align, bi)[0] ==
+                                               t6.pack(rows, w, bi) else "fails too"), case)
                 continue
             if t6.unpack(out, w, len(rows), bi) != rows:
                 capped(ck, counts, "rows:differ", "image XObject decoded to other rows (%s, width %d)" % (case["origin"], w), case)
